@@ -625,18 +625,22 @@ fn tracker_snapshot_case(seed: u64, idx: u64) -> CaseOut {
     let replay = format!("t{seed}:{idx}");
     let clock = Arc::new(AtomicU64::new(11_000_000_000));
     install_session(&clock);
-    let silent_by = rng.below(2); // 0: swallowed by the bucket, 1: steady ticker installed
+    // 0: swallowed by the bucket, 1: steady ticker installed (interval far away), 2: a running steady ticker paints
+    // the next frames itself (round 11: a ticker path that redraws without telling the trackers)
+    let silent_by = rng.below(3);
     // (finishing repaints without ticking the trackers - by design it is not a tick - so it is not part of this lane)
     let repaint = rng.below(6);
     let repaint_name = ["set_prefix", "set_message", "set_length", "unset_length", "inc_length", "tick", "finish_with_message"][repaint as usize];
     let (pb, spy) = new_bar(80, 100, Some(1000));
-    let witness = J::obj().with("silent_change", ["burst of position updates at one instant", "position update under a steady ticker"][silent_by as usize]).with("repainting_call", repaint_name);
+    let witness = J::obj().with("silent_change", ["burst of position updates at one instant", "position update under a steady ticker", "position update repainted by the steady ticker itself"][silent_by as usize]).with("repainting_call", repaint_name);
     let mut co = CaseOut::held(fnv1a(format!("{silent_by}{repaint}{idx}").as_bytes()), true);
     let res = catch_unwind(AssertUnwindSafe(|| -> Verdict {
         pb.set_style(ProgressStyle::with_template("{pos}/{len}|{snap}").unwrap().with_key("snap", SnapTracker(Arc::new(Mutex::new((0, None))))));
         pb.tick();
         clock.fetch_add(50_000_000, Ordering::SeqCst);
-        if silent_by == 0 {
+        if silent_by == 2 {
+            // (handled below)
+        } else if silent_by == 0 {
             // more updates than the bucket holds, all at the same instant: the last ones change the position silently
             for _ in 0..rng.range(12, 30) {
                 pb.inc(1);
@@ -650,6 +654,44 @@ fn tracker_snapshot_case(seed: u64, idx: u64) -> CaseOut {
             }
             pb.inc(rng.range(1, 50));
             pb.set_position(rng.range(100, 900));
+        }
+        if silent_by == 2 {
+            let wait_two = |spy: &crate::spy::SpyTerm| {
+                let (f0, t0) = (spy.flushes(), std::time::Instant::now());
+                while spy.flushes() < f0 + 2 {
+                    if t0.elapsed().as_secs() >= 3 {
+                        return false;
+                    }
+                    std::thread::sleep(std::time::Duration::from_micros(300));
+                }
+                true
+            };
+            spy.state().log = Some(Vec::new());
+            pb.enable_steady_tick(std::time::Duration::from_millis(1));
+            let mut ok = wait_two(&spy);
+            pb.inc(rng.range(1, 50));
+            pb.set_position(rng.range(100, 900));
+            ok = ok && wait_two(&spy);
+            // (joins the ticker thread: the last frame is complete and nothing paints behind our back)
+            pb.disable_steady_tick();
+            let lines = last_frame_lines(&spy);
+            let (pos_after, len_after) = (pb.position(), pb.length());
+            pb.abandon();
+            if !ok {
+                return Verdict::Inconclusive("the ticker thread did not paint twice within 3 s".into());
+            }
+            let want = format!("{pos_after}/{}|S<{pos_after}|{len_after:?}>", len_after.unwrap_or(pos_after));
+            let got = lines.first().map(|l| l.trim_end().to_string()).unwrap_or_default();
+            if got != want {
+                return viol(
+                    "custom-key-stale-state",
+                    vec!["custom".into(), "silent-position-change".into(), "steady-ticker-frame".into()],
+                    format!("the position reached {pos_after} under a running steady ticker; two ticker frames later the screen reads {got:?} - the stateful custom key should have been ticked with the current state ({want:?})"),
+                    witness.clone(),
+                    replay.clone(),
+                );
+            }
+            return Verdict::Held;
         }
         let pos = pb.position();
         spy.state().log = Some(Vec::new());
